@@ -63,12 +63,15 @@ func recScenarios(r *vkit.R, g *vkit.Rand) []recScenario {
 		{Kind: "timeouts", OutageMs: 3500, GraceMs: 2000},
 		{Kind: "not-ready", OutageMs: 1500, GraceMs: 500},
 		{Kind: "unknown", OutageMs: 9000, GraceMs: 7000},
+		// the acquire call keeps succeeding but its answers carry no result for the flow control (missing replies): only
+		// the counter's reset check (4-6 s without an answer) can notice
+		{Kind: "omitted", OutageMs: 9000, GraceMs: 7000},
 	}
 	for rep := 0; rep < r.N(1, 4); rep++ {
 		for _, strategy := range []proxyv1alpha1.LimitStrategy{proxyv1alpha1.GlobalCountLimit, proxyv1alpha1.GlobalAllocateLimit} {
 			for _, typ := range []string{"maxinflight", "tokenbucket"} {
 				for _, k := range kinds {
-					if strategy == proxyv1alpha1.GlobalAllocateLimit && (k.Kind == "timeouts" || k.Kind == "unknown") {
+					if strategy == proxyv1alpha1.GlobalAllocateLimit && (k.Kind == "timeouts" || k.Kind == "unknown" || k.Kind == "omitted") {
 						continue // the allocate path keeps the last quota while failing: errors and not-ready cover it cheaply
 					}
 					sc := k
@@ -77,12 +80,27 @@ func recScenarios(r *vkit.R, g *vkit.Rand) []recScenario {
 						sc.Cfg.G = int32(g.Range(6, 12))
 						sc.Cfg.L = int32(g.Range(1, int(sc.Cfg.G)-1))
 						sc.Quota = int32(g.Range(2, int(sc.Cfg.G)))
+						if strategy == proxyv1alpha1.GlobalCountLimit && (k.Kind == "unknown" || k.Kind == "omitted") {
+							// local >= the 3 callers, server-granted limit far above it: "still on the server's limit" and
+							// "fell back to max(observed usage, local) = local" are easy to tell apart
+							sc.Cfg.G = int32(g.Range(14, 20))
+							sc.Cfg.L = int32(g.Range(3, 4))
+							sc.Quota = int32(g.Range(10, int(sc.Cfg.G)))
+						}
 					} else {
 						sc.Cfg.G = int32(g.Range(40, 100))
 						sc.Cfg.GB = int32(g.Range(int(sc.Cfg.G), 2*int(sc.Cfg.G)))
 						sc.Cfg.L = int32(g.Range(10, int(sc.Cfg.G)/2))
 						sc.Cfg.LB = int32(g.Range(5, int(sc.Cfg.L)))
 						sc.Quota = int32(g.Range(20, int(sc.Cfg.G)))
+						if k.Kind == "omitted" {
+							// a small token reserve (5 % of the global qps = 2-3): the handful of answers without a result
+							// that 9 s produce are then certainly more than the reserve
+							sc.Cfg.G = int32(g.Range(40, 60))
+							sc.Cfg.GB = 2 * sc.Cfg.G
+							sc.Cfg.L = int32(g.Range(10, 20))
+							sc.Cfg.LB = sc.Cfg.L
+						}
 					}
 					out = append(out, sc)
 				}
@@ -128,6 +146,9 @@ func runRecovery(r *vkit.R, sc recScenario, g *vkit.Rand) {
 		// what the stub server saw after the recovery
 		reqAfter, askedAfter, grantedAfter int64
 		hung                               int64
+		omitted                            int64 // answers without a result for the flow control
+		// count strategy, max in flight, outage kinds that only the reset check can notice
+		generous = isCount && !isTB && (sc.Kind == "unknown" || sc.Kind == "omitted")
 	)
 	gw.cs.setAcquire(func(req *proxyv1alpha1.RateLimitAcquire) (*proxyv1alpha1.RateLimitAcquire, error) {
 		if atomic.LoadInt32(&outage) != 0 {
@@ -147,9 +168,17 @@ func runRecovery(r *vkit.R, sc recScenario, g *vkit.Rand) {
 		}
 		// honest server with plenty of capacity: everything asked is granted
 		out := req.DeepCopy()
+		if atomic.LoadInt32(&outage) != 0 && sc.Kind == "omitted" {
+			atomic.AddInt64(&omitted, 1)
+			return out, nil // a well-formed answer without a result for the flow control
+		}
 		after := atomic.LoadInt64(&recoveredAt) != 0
 		for _, rq := range req.Spec.Requests {
-			out.Status.Results = append(out.Status.Results, proxyv1alpha1.RateLimitAcquireResult{FlowControl: rq.FlowControl, Accept: true, Limit: rq.Tokens})
+			lim := rq.Tokens
+			if generous && lim < sc.Quota {
+				lim = sc.Quota // a server that leaves this instance plenty of room
+			}
+			out.Status.Results = append(out.Status.Results, proxyv1alpha1.RateLimitAcquireResult{FlowControl: rq.FlowControl, Accept: true, Limit: lim})
 			if after {
 				atomic.AddInt64(&askedAfter, int64(rq.Tokens))
 				atomic.AddInt64(&grantedAfter, int64(rq.Tokens))
@@ -248,6 +277,21 @@ func runRecovery(r *vkit.R, sc recScenario, g *vkit.Rand) {
 		atomic.StoreInt32(&outage, 1)
 	}
 	time.Sleep(time.Duration(sc.OutageMs) * time.Millisecond)
+	// still in the outage: is the instance still on the limit the server granted before it?
+	stillOnServerLimit, heldAtEnd := false, 0
+	if generous {
+		vkit.Safely(func() {
+			fc := gw.fc()
+			for heldAtEnd < int(cfg.L)+3 && fc.TryAcquire() {
+				heldAtEnd++
+			}
+			for i := 0; i < heldAtEnd; i++ {
+				fc.Release()
+			}
+		})
+		stillOnServerLimit = heldAtEnd > int(cfg.L)
+	}
+	outageSeconds := float64(bed.Now()-tO) / 1e9
 	// ---- recovery ----
 	tR := bed.Now()
 	atomic.StoreInt64(&recoveredAt, tR)
@@ -279,6 +323,8 @@ func runRecovery(r *vkit.R, sc recScenario, g *vkit.Rand) {
 		"tokensAskedAfterRecovery":   atomic.LoadInt64(&askedAfter),
 		"tokensGrantedAfterRecovery": atomic.LoadInt64(&grantedAfter),
 		"acquireCallsThatHung":       atomic.LoadInt64(&hung),
+		"answersWithoutResult":       atomic.LoadInt64(&omitted),
+		"heldAtEndOfOutage":          heldAtEnd,
 	}
 	r.Set(fmt.Sprintf("rec_observation_%s_%s_%s_g%d", strat, cfg.Type, sc.Kind, cfg.G), obs)
 	if admH == 0 {
@@ -294,6 +340,21 @@ func runRecovery(r *vkit.R, sc recScenario, g *vkit.Rand) {
 			return fmt.Sprintf("token-bucket schema local=(%d qps, burst %d) global=(%d qps, burst %d)", cfg.L, cfg.LB, cfg.G, cfg.GB)
 		}
 		return fmt.Sprintf("max-in-flight schema local=%d global=%d", cfg.L, cfg.G)
+	}
+	// fallback-not-local: for at least 8 s (twice what the counter's reset check needs) no answer has reached this flow
+	// control (for "omitted": in at least 3 answered requests), the 3 callers never had more than 3 <= local requests in
+	// flight, and the driver could still take more than `local` slots at once: the server's limit is still in force
+	if generous {
+		if outageSeconds >= 8 && (sc.Kind != "omitted" || atomic.LoadInt64(&omitted) >= 3) {
+			r.Count("rec_fallback_limit_checks", 1)
+			if stillOnServerLimit {
+				r.Violation(fmt.Sprintf("C09/%s-%s/fallback-not-local/during-%s", strat, cfg.Type, sc.Kind),
+					fmt.Sprintf("%s, count strategy, outage kind %q: the server accepted with limit %d while healthy; for %.1fs no answer has reached this flow control (%d answers without a result for it) and its 3 callers never held more than 3 requests at once, yet %d more requests could be taken at once (probe capped at local+3): the server-granted limit is still in force, not max(observed usage, local) = %d",
+						describe(), sc.Kind, sc.Quota, outageSeconds, atomic.LoadInt64(&omitted), heldAtEnd, cfg.L), obs)
+			}
+		} else {
+			r.Count("rec_fallback_limit_checks_skipped", 1)
+		}
 	}
 	// no-fallback
 	if nO >= 5 {
@@ -314,14 +375,19 @@ func runRecovery(r *vkit.R, sc recScenario, g *vkit.Rand) {
 	r.Count("rec_recovery_checks", 1)
 	// judged on the attempts started later than 5 s after the recovery: answers to requests that were already on their way
 	// when the outage ended (granted by the recovered server) must not count as "recovered"
-	if admLate == 0 {
+	// The second form of "not recovered" is an observation at the stub, not a rate: in the whole time since the recovery
+	// (>= 8 s) the gateway has not asked the healthy server for a single token/slot, while >= 10 of the late attempts of
+	// its callers were refused. Whatever is still admitted then comes from the local fallback coming and going (reset
+	// check -> fallback, empty resync accepted -> server mode without tokens), not from a server-granted quota.
+	stoppedAsking := isCount && atomic.LoadInt64(&askedAfter) == 0 && nLate-admLate >= 10
+	if admLate == 0 || stoppedAsking {
 		what := "the gateway kept asking and was granted everything"
 		if isCount && atomic.LoadInt64(&askedAfter) <= int64(admR) {
 			what = "the gateway (all but) stopped asking the server for tokens/slots although its callers were being refused"
 		}
 		r.Violation(fmt.Sprintf("C09/%s-%s/no-recovery/after-%s", strat, cfg.Type, sc.Kind),
-			fmt.Sprintf("%s, %s strategy, outage kind %q (%.1fs): the server has been healthy again for %.1fs and answered all %d requests it received honestly (asked %d, granted %d); %d requests were tried later than 5 s after the recovery, none of them was admitted (%d admitted since the recovery in total): %s",
-				describe(), strat, sc.Kind, float64(sc.OutageMs)/1e3, float64(tEnd-tR)/1e9, atomic.LoadInt64(&reqAfter), atomic.LoadInt64(&askedAfter), atomic.LoadInt64(&grantedAfter), nLate, admR, what), obs)
+			fmt.Sprintf("%s, %s strategy, outage kind %q (%.1fs): the server has been healthy again for %.1fs and answered all %d requests it received honestly (asked %d, granted %d); %d requests were tried later than 5 s after the recovery, %d of them were admitted (%d admitted since the recovery in total): %s",
+				describe(), strat, sc.Kind, float64(sc.OutageMs)/1e3, float64(tEnd-tR)/1e9, atomic.LoadInt64(&reqAfter), atomic.LoadInt64(&askedAfter), atomic.LoadInt64(&grantedAfter), nLate, admLate, admR, what), obs)
 		return
 	}
 	if r.WantSample() && sc.Kind == "timeouts" {
